@@ -1418,3 +1418,399 @@ Proof.
   { apply (NoDup_fst_inj (flat_members x)); auto. apply flat_members_nodup. apply Hnames. eapply nth_error_In; eauto. }
   inversion G; subst. congruence.
 Qed.
+
+(* ================================================================== connect does not depend on the argument order *)
+Definition swap_at (k h : nat) : nat := if Nat.eqb h k then S k else if Nat.eqb h (S k) then k else h.
+
+Lemma swap_at_invol k h : swap_at k (swap_at k h) = h.
+Proof.
+  unfold swap_at. destruct (Nat.eqb_spec h k).
+  - subst. rewrite (proj2 (Nat.eqb_neq (S k) k)) by lia. rewrite Nat.eqb_refl. reflexivity.
+  - destruct (Nat.eqb_spec h (S k)).
+    + subst. rewrite Nat.eqb_refl. reflexivity.
+    + rewrite (proj2 (Nat.eqb_neq h k)), (proj2 (Nat.eqb_neq h (S k))) by lia. reflexivity.
+Qed.
+
+Lemma nth_error_swap {A} (l1 : list A) a b l2 h :
+  nth_error (l1 ++ b :: a :: l2) (swap_at (length l1) h) = nth_error (l1 ++ a :: b :: l2) h.
+Proof.
+  revert h. induction l1 as [|x l1 IH]; intros h; simpl.
+  - destruct h as [|[|h]]; reflexivity.
+  - destruct h as [|h]; [reflexivity|]. simpl. rewrite <- IH. unfold swap_at. simpl.
+    destruct (Nat.eqb h (length l1)); [reflexivity|]. destruct (Nat.eqb h (S (length l1))); reflexivity.
+Qed.
+
+Section Swap.
+  Variables (objs objs' : list obj) (sigs sigs' : list sigt) (s : nat -> nat).
+  Hypothesis Hinv : forall h, s (s h) = h.
+  Hypothesis Hsig : forall h, nth_error sigs' (s h) = nth_error sigs h.
+  Hypothesis Hobj : forall h, nth_error objs' (s h) = nth_error objs h.
+
+  Lemma sw_traverse h q : traverse objs' (s h, q) = traverse objs (h, q).
+  Proof. unfold traverse. cbn [fst snd]. rewrite Hobj. reflexivity. Qed.
+  Lemma sw_traverse' h q : traverse objs' (h, q) = traverse objs (s h, q).
+  Proof. rewrite <- (Hinv h) at 1. apply sw_traverse. Qed.
+
+  Lemma sw_member h p m : member_at sigs' h p m -> member_at sigs (s h) p m.
+  Proof. intros (x & Hx & Hm). exists x. split; [|exact Hm]. rewrite <- Hsig, Hinv. exact Hx. Qed.
+  Lemma sw_member' h p m : member_at sigs h p m -> member_at sigs' (s h) p m.
+  Proof. intros (x & Hx & Hm). exists x. split; [|exact Hm]. rewrite Hsig. exact Hx. Qed.
+  Lemma sw_port h p m : port_at sigs h p m -> port_at sigs' (s h) p m.
+  Proof. intros (x & Hx & Hm). exists x. split; [|exact Hm]. rewrite Hsig. exact Hx. Qed.
+  Lemma sw_port' h p m : port_at sigs' h p m -> port_at sigs (s h) p m.
+  Proof. intros (x & Hx & Hm). exists x. split; [|exact Hm]. rewrite <- Hsig, Hinv. exact Hx. Qed.
+
+  Lemma sw_cv_ok h h' q q' : cv_ok objs (s h, q) (s h', q') -> cv_ok objs' (h, q) (h', q').
+  Proof.
+    unfold cv_ok, connect_value. rewrite !sw_traverse'.
+    destruct (traverse objs (s h, q)) as [iv|]; [|auto]. destruct (traverse objs (s h', q')) as [ov|]; [|auto].
+    destruct iv; auto.
+  Qed.
+
+  Lemma sw_connectable : connectable objs sigs -> connectable objs' sigs'.
+  Proof.
+    intros [H1 H2 H3 H4 H5]. constructor.
+    - intros h h' x x' Hx Hx'. apply (H1 (s h) (s h')); rewrite <- Hsig, Hinv; assumption.
+    - intros h h' p m m' M1 M2. apply (H2 (s h) (s h') p); apply sw_member; assumption.
+    - intros h h' p m m' M1 M2. apply (H3 (s h) (s h') p); apply sw_member; assumption.
+    - intros h h' p m m' M1 M2 P1 P2 O1 O2.
+      assert (E : s h = s h') by (apply (H4 (s h) (s h') p m m'); auto; apply sw_member; assumption).
+      rewrite <- (Hinv h), <- (Hinv h'), E. reflexivity.
+    - intros h h' p m m' M1 M2 P1 I1 P2 O2.
+      destruct (H5 (s h) (s h') p m m') as [Hd Hk]; auto; try (apply sw_member; assumption).
+      split; [exact Hd|]. intros idx Hidx. apply sw_cv_ok. apply Hk. exact Hidx.
+  Qed.
+
+  Lemma sw_has_in : has_in sigs -> has_in sigs'.
+  Proof. intros (h & p & m & M & P). exists (s h), p, m. split; [apply sw_member'; exact M|exact P]. Qed.
+  Lemma sw_has_out : has_out sigs' -> has_out sigs.
+  Proof. intros (h & p & m & M & P). exists (s h), p, m. split; [apply sw_member; exact M|exact P]. Qed.
+End Swap.
+
+Definition rn (s : nat -> nat) (a : asg) : asg := ((s (fst (fst a)), snd (fst a)), (s (fst (snd a)), snd (snd a))).
+Definition resolve (objs : list obj) (a : asg) : res obj * res obj := (traverse objs (fst a), traverse objs (snd a)).
+Definition names_good (objs : list obj) : Prop :=
+  Forall (fun o => forall x, obj_sig o = Some x -> names_ok (top x) = true) objs.
+
+Lemma args_names objs sigs : args_ok objs sigs -> names_good objs -> forall x, In x sigs -> names_ok (top x) = true.
+Proof.
+  intros Ha Hg x Hx. destruct (Forall2_in_r _ _ _ _ Ha Hx) as (o & Ho & Hs & _).
+  unfold names_good in Hg. rewrite Forall_forall in Hg. apply (Hg o Ho). exact Hs.
+Qed.
+
+Lemma F2_length {A B} (R : A -> B -> Prop) l l' : Forall2 R l l' -> length l = length l'.
+Proof. induction 1; simpl; congruence. Qed.
+
+Lemma connect_swap l1 a b l2 cs :
+  names_good (l1 ++ a :: b :: l2) -> connect (l1 ++ a :: b :: l2) = Ok cs ->
+  exists cs', connect (l1 ++ b :: a :: l2) = Ok cs' /\
+              Permutation (map (resolve (l1 ++ a :: b :: l2)) cs) (map (resolve (l1 ++ b :: a :: l2)) cs').
+Proof.
+  set (objs := l1 ++ a :: b :: l2). set (objs' := l1 ++ b :: a :: l2). intros Hg Hc.
+  unfold connect in Hc. destruct (check_args objs) as [sigs|] eqn:Hca; [|discriminate].
+  apply check_args_iff in Hca. unfold objs, args_ok in Hca.
+  apply Forall2_app_inv_l in Hca. destruct Hca as (s1 & sr & F1 & Fr & Es).
+  inversion Fr as [|? xa ? sr' Ra Fr']; subst. inversion Fr' as [|? xb ? s2 Rb F2]; subst.
+  set (sigs := s1 ++ xa :: xb :: s2) in *. set (sigs' := s1 ++ xb :: xa :: s2).
+  assert (Hl : length l1 = length s1) by (eapply F2_length; eauto).
+  set (s := swap_at (length l1)).
+  assert (Ha : args_ok objs sigs) by (apply Forall2_app; [exact F1|constructor; [exact Ra|constructor; [exact Rb|exact F2]]]).
+  assert (Ha' : args_ok objs' sigs') by (apply Forall2_app; [exact F1|constructor; [exact Rb|constructor; [exact Ra|exact F2]]]).
+  assert (Hinv : forall h, s (s h) = h) by (intros; apply swap_at_invol).
+  assert (Hsig : forall h, nth_error sigs' (s h) = nth_error sigs h).
+  { intros h. unfold s, sigs, sigs'. rewrite Hl. apply nth_error_swap. }
+  assert (Hobj : forall h, nth_error objs' (s h) = nth_error objs h).
+  { intros h. unfold s, objs, objs'. apply nth_error_swap. }
+  assert (Hsig2 : forall h, nth_error sigs (s h) = nth_error sigs' h) by (intros h; rewrite <- Hsig, Hinv; reflexivity).
+  assert (Hobj2 : forall h, nth_error objs (s h) = nth_error objs' h) by (intros h; rewrite <- Hobj, Hinv; reflexivity).
+  assert (Hlen : (2 <= length sigs)%nat) by (unfold sigs; rewrite app_length; simpl; lia).
+  assert (Hlen' : (2 <= length sigs')%nat) by (unfold sigs'; rewrite app_length; simpl; lia).
+  assert (Hg' : names_good objs').
+  { unfold names_good, objs' in *. unfold objs in Hg. rewrite Forall_app in *. destruct Hg as [G1 G2].
+    inversion G2 as [|? ? Ga G3]; subst. inversion G3 as [|? ? Gb G4]; subst. split; [exact G1|]. repeat constructor; auto. }
+  assert (Hn : forall x, In x sigs -> names_ok (top x) = true) by (eapply args_names; eauto).
+  assert (Hn' : forall x, In x sigs' -> names_ok (top x) = true) by (eapply args_names; eauto).
+  assert (Hex : exists cs', connect_sigs objs' sigs' = Ok cs').
+  { apply (connect_sigs_ok_iff objs' sigs' Hlen' Hn').
+    destruct (proj1 (connect_sigs_ok_iff objs sigs Hlen Hn) (ex_intro _ cs Hc)) as [C Hio]. split.
+    - apply (sw_connectable objs objs' sigs sigs' s Hinv Hsig Hobj C).
+    - intros Hi. apply (sw_has_in sigs' sigs s Hsig2) in Hi. apply Hio in Hi.
+      apply (sw_has_out sigs' sigs s Hinv Hsig2). exact Hi. }
+  destruct Hex as [cs' Hc']. exists cs'. split.
+  { unfold connect. apply check_args_iff in Ha'. rewrite Ha'. exact Hc'. }
+  destruct (connect_leafwise objs sigs cs Hlen Hn Hc) as [Hm Hnd].
+  destruct (connect_leafwise objs' sigs' cs' Hlen' Hn' Hc') as [Hm' Hnd'].
+  assert (Hperm : Permutation (map (rn s) cs) cs').
+  { apply NoDup_Permutation.
+    - apply NoDup_map_inj; [|apply (NoDup_map_inv fst); exact Hnd].
+      intros [[i q] [j q']] [[i2 q2] [j2 q2']] E. unfold rn in E. cbn [fst snd] in E. inversion E.
+      assert (i = i2) by (rewrite <- (Hinv i), <- (Hinv i2); congruence).
+      assert (j = j2) by (rewrite <- (Hinv j), <- (Hinv j2); congruence). congruence.
+    - apply (NoDup_map_inv fst). exact Hnd'.
+    - intros a'. rewrite in_map_iff. split.
+      + intros (a0 & <- & Ha0). apply Hm in Ha0.
+        destruct Ha0 as (i & j & p & mi & mj & idx & Pi & Ii & Pj & Oj & Hidx & Hs & ->).
+        apply Hm'. exists (s i), (s j), p, mi, mj, idx.
+        split; [apply (sw_port sigs sigs' s Hsig); exact Pi|]. split; [exact Ii|].
+        split; [apply (sw_port sigs sigs' s Hsig); exact Pj|]. split; [exact Oj|]. split; [exact Hidx|].
+        split; [rewrite (sw_traverse objs objs' s Hobj); exact Hs|reflexivity].
+      + intros Ha0. apply Hm' in Ha0.
+        destruct Ha0 as (i & j & p & mi & mj & idx & Pi & Ii & Pj & Oj & Hidx & Hs & ->).
+        exists (asg_at objs (s i) (s j) p idx). split.
+        * unfold rn, asg_at. cbn [fst snd]. rewrite !Hinv. reflexivity.
+        * apply Hm. exists (s i), (s j), p, mi, mj, idx.
+          split; [apply (sw_port' sigs sigs' s Hinv Hsig); exact Pi|]. split; [exact Ii|].
+          split; [apply (sw_port' sigs sigs' s Hinv Hsig); exact Pj|]. split; [exact Oj|]. split; [exact Hidx|].
+          split; [rewrite <- (sw_traverse' objs objs' s Hinv Hobj); exact Hs|reflexivity]. }
+  assert (Hres : map (resolve objs) cs = map (resolve objs') (map (rn s) cs)).
+  { rewrite map_map. apply map_ext. intros [[i q] [j q']]. unfold resolve, rn. cbn [fst snd].
+    rewrite !(sw_traverse objs objs' s Hobj). reflexivity. }
+  rewrite Hres. apply Permutation_map. exact Hperm.
+Qed.
+
+Definition perm_rel (l l' : list obj) : Prop :=
+  forall cs, connect l = Ok cs ->
+  exists cs', connect l' = Ok cs' /\ Permutation (map (resolve l) cs) (map (resolve l') cs').
+
+Lemma names_good_perm l l' : Permutation l l' -> names_good l -> names_good l'.
+Proof.
+  unfold names_good. intros HP H. rewrite Forall_forall in *. intros o Ho. apply H.
+  eapply Permutation_in; [symmetry; exact HP|exact Ho].
+Qed.
+
+(* the assignments made by connect (as pairs of the connected objects) and its success do not depend on the
+   order of the arguments *)
+Theorem connect_perm l l' : Permutation l l' -> names_good l -> perm_rel l l' /\ perm_rel l' l.
+Proof.
+  intros HP. induction HP as [l|x y l1 l2|l l' l'' HP1 IH1 HP2 IH2] using Permutation_ind_transp; intros Hg.
+  - split; intros cs H; exists cs; split; auto.
+  - split; intros cs H; apply connect_swap; auto.
+    eapply names_good_perm; [|exact Hg]. apply Permutation_app_head. apply perm_swap.
+  - destruct (IH1 Hg) as [A1 B1]. destruct (IH2 (names_good_perm _ _ HP1 Hg)) as [A2 B2]. split.
+    + intros cs H. destruct (A1 cs H) as (cs1 & H1 & P1). destruct (A2 cs1 H1) as (cs2 & H2 & P2).
+      exists cs2. split; [exact H2|]. eapply Permutation_trans; eauto.
+    + intros cs H. destruct (B2 cs H) as (cs1 & H1 & P1). destruct (B1 cs1 H1) as (cs2 & H2 & P2).
+      exists cs2. split; [exact H2|]. eapply Permutation_trans; eauto.
+Qed.
+
+Corollary connect_perm_error l l' e : Permutation l l' -> names_good l -> connect l = Err e -> exists e', connect l' = Err e'.
+Proof.
+  intros HP Hg He. destruct (connect_perm l l' HP Hg) as [_ B]. destruct (connect l') as [cs'|e'] eqn:E; [|eauto].
+  destruct (B cs' E) as (cs & H & _). congruence.
+Qed.
+
+(* ================================================================== metadata lists every leaf once *)
+Fixpoint json_ports (j : json) : list sleaf :=
+  match j with
+  | JPort nm d w sg i => [SLeaf nm d (Sh w sg) i]
+  | JArr l => flat_map json_ports l
+  | JIface ms => flat_map (fun nj => json_ports (snd nj)) ms
+  end.
+
+Lemma flat_map_map {A B C} (g : B -> list C) (h : A -> B) l : flat_map g (map h l) = flat_map (fun a => g (h a)) l.
+Proof. induction l; simpl; [reflexivity|]. rewrite IHl. reflexivity. Qed.
+Lemma flat_map_flat_map {A B C} (g : B -> list C) (h : A -> list B) l :
+  flat_map g (flat_map h l) = flat_map (fun a => flat_map g (h a)) l.
+Proof. induction l; simpl; [reflexivity|]. rewrite flat_map_app, IHl. reflexivity. Qed.
+
+Lemma meta_dims_ports f dims : forall p,
+  json_ports (meta_dims f dims p) = flat_map (fun idx => json_ports (f (p ++ idx))) (idx_paths dims).
+Proof.
+  induction dims as [|d rest IH]; intros p; simpl.
+  - rewrite !app_nil_r. reflexivity.
+  - rewrite flat_map_map, flat_map_flat_map. apply flat_map_ext. intros i.
+    rewrite IH, flat_map_map. apply flat_map_ext. intros idx. rewrite <- app_assoc. reflexivity.
+Qed.
+
+Lemma meta_m_ports m : forall k p,
+  json_ports (meta_dims (meta_m (Nat.odd k) m) (m_dims m) p) = spec_leaves_m k m p.
+Proof.
+  induction m as [f sh i d | f w ms d IH] using member_ind2; intros k p; rewrite meta_dims_ports.
+  - cbn [m_dims meta_m json_ports spec_leaves_m]. rewrite iter_flip_odd. destruct sh as [wd sg]. cbn [width sgn].
+    induction (idx_paths d); simpl; [reflexivity|]. f_equal; assumption.
+  - cbn [m_dims meta_m json_ports spec_leaves_m]. apply flat_map_ext. intros idx.
+    rewrite flat_map_map. cbn [snd fst]. rewrite sub_flag_odd.
+    eapply flat_map_ext_Forall; [exact IH|]. intros nm H. rewrite H, <- app_assoc. reflexivity.
+Qed.
+
+(* ComponentMetadata.as_json lists exactly the leaves of the specification (path with indices, effective
+   direction, width, signedness, initial value), in order *)
+Theorem metadata_lists_leaves x : json_ports (metadata x) = spec_leaves x.
+Proof.
+  destruct x as [w ms]. unfold metadata, spec_leaves, top. cbn [meta_m json_ports fst snd].
+  rewrite flat_map_map. cbn [snd fst app]. rewrite sub_flag_top.
+  apply flat_map_ext. intros nm.
+  replace w with (Nat.odd (b2n w)) at 1 by (destruct w; reflexivity). apply meta_m_ports.
+Qed.
+
+(* ---- each leaf once ---- *)
+Lemma spec_leaves_prefix m : forall k p l, In l (spec_leaves_m k m p) -> exists s, s_path l = p ++ s.
+Proof.
+  induction m as [f sh i d | f w ms d IH] using member_ind2; intros k p l H; cbn [spec_leaves_m] in H.
+  - apply in_map_iff in H. destruct H as (idx & <- & _). simpl. eauto.
+  - apply in_flat_map in H. destruct H as (idx & _ & H). apply in_flat_map in H. destruct H as (nm & Hnm & H).
+    rewrite Forall_forall in IH. destruct (IH _ Hnm _ _ _ H) as [s ->]. exists (idx ++ [PN (fst nm)] ++ s).
+    rewrite <- !app_assoc. reflexivity.
+Qed.
+
+Lemma pi_split idx : forall idx' n n' s s', idx ++ PN n :: s = idx' ++ PN n' :: s' ->
+  forallb is_pi idx = true -> forallb is_pi idx' = true -> idx = idx' /\ n = n'.
+Proof.
+  induction idx as [|a idx IH]; intros [|b idx'] n n' s s' E H1 H2; simpl in *.
+  - inversion E. auto.
+  - inversion E; subst. discriminate.
+  - inversion E; subst. discriminate.
+  - inversion E; subst. apply andb_prop in H1, H2. destruct (IH _ _ _ _ _ H3 (proj2 H1) (proj2 H2)) as [-> ->]. auto.
+Qed.
+
+Lemma spec_leaves_nodup m : forall k p, names_ok m = true -> NoDup (map s_path (spec_leaves_m k m p)).
+Proof.
+  induction m as [f sh i d | f w ms d IH] using member_ind2; intros k p Hn; cbn [spec_leaves_m].
+  - rewrite map_map. cbn [s_path]. apply NoDup_map_inj; [|apply idx_paths_nodup]. intros a b E. apply app_inv_head in E. exact E.
+  - cbn [names_ok] in Hn. apply andb_prop in Hn. destruct Hn as [Hn1 Hn2]. rewrite forallb_forall in Hn2.
+    rewrite Forall_forall in IH. apply nodupb_NoDup in Hn1.
+    rewrite (map_flat_map s_path). apply NoDup_flat_map_intro.
+    + apply idx_paths_nodup.
+    + intros idx _. rewrite (map_flat_map s_path). apply NoDup_flat_map_intro.
+      * apply (NoDup_map_inv fst). exact Hn1.
+      * intros nm Hnm. apply IH; auto.
+      * intros a b x Ha Hb Hxa Hxb. apply in_map_iff in Hxa, Hxb.
+        destruct Hxa as (la & <- & Hla). destruct Hxb as (lb & E & Hlb).
+        destruct (spec_leaves_prefix _ _ _ _ Hla) as [sa Ea]. destruct (spec_leaves_prefix _ _ _ _ Hlb) as [sb Eb].
+        rewrite Ea, Eb in E. rewrite <- !app_assoc in E. apply app_inv_head in E. apply app_inv_head in E.
+        inversion E. apply (NoDup_fst_inj ms); auto.
+    + intros ia ib x Hia Hib Hxa Hxb. apply in_map_iff in Hxa, Hxb.
+      destruct Hxa as (la & <- & Hla). destruct Hxb as (lb & E & Hlb).
+      apply in_flat_map in Hla, Hlb. destruct Hla as (na & _ & Hla). destruct Hlb as (nb & _ & Hlb).
+      destruct (spec_leaves_prefix _ _ _ _ Hla) as [sa Ea]. destruct (spec_leaves_prefix _ _ _ _ Hlb) as [sb Eb].
+      rewrite Ea, Eb in E. rewrite <- !app_assoc in E. apply app_inv_head in E. simpl in E.
+      symmetry. eapply pi_split; [exact E| |]; eapply idx_paths_pi; eauto.
+Qed.
+
+Theorem spec_leaves_once x : names_ok (top x) = true -> NoDup (map s_path (spec_leaves x)).
+Proof.
+  destruct x as [w ms]. unfold spec_leaves. cbn [top names_ok fst snd]. intros Hn.
+  apply andb_prop in Hn. destruct Hn as [Hn1 Hn2]. rewrite forallb_forall in Hn2. apply nodupb_NoDup in Hn1.
+  rewrite (map_flat_map s_path). apply NoDup_flat_map_intro.
+  - apply (NoDup_map_inv fst). exact Hn1.
+  - intros nm Hnm. apply spec_leaves_nodup. auto.
+  - intros a b x Ha Hb Hxa Hxb. apply in_map_iff in Hxa, Hxb.
+    destruct Hxa as (la & <- & Hla). destruct Hxb as (lb & E & Hlb).
+    destruct (spec_leaves_prefix _ _ _ _ Hla) as [sa Ea]. destruct (spec_leaves_prefix _ _ _ _ Hlb) as [sb Eb].
+    rewrite Ea, Eb in E. simpl in E. inversion E. apply (NoDup_fst_inj ms); auto.
+Qed.
+
+(* ================================================================== sorted lock step = same member sets *)
+Lemma path_cmp_antisym a : forall b, path_cmp a b = CompOpp (path_cmp b a).
+Proof.
+  induction a as [|x a IH]; intros [|y b]; simpl; try reflexivity.
+  rewrite (Z.compare_antisym y x). destruct (y ?= x); simpl; auto.
+Qed.
+
+Lemma path_leb_total a b : path_leb a b = false -> path_leb b a = true.
+Proof. unfold path_leb. rewrite (path_cmp_antisym b a). destruct (path_cmp a b); simpl; auto; discriminate. Qed.
+
+Lemma path_leb_antisym a b : path_leb a b = true -> path_leb b a = true -> a = b.
+Proof.
+  unfold path_leb. rewrite (path_cmp_antisym b a). destruct (path_cmp a b) eqn:E; simpl; try discriminate.
+  intros _ _. apply path_cmp_eq. exact E.
+Qed.
+
+Lemma path_leb_trans a : forall b c, path_leb a b = true -> path_leb b c = true -> path_leb a c = true.
+Proof.
+  unfold path_leb. induction a as [|x a IH]; intros [|y b] [|z c]; simpl; auto; try discriminate.
+  destruct (Z.compare_spec x y), (Z.compare_spec y z); try discriminate; subst; intros H1 H2.
+  - rewrite Z.compare_refl. apply (IH b c); auto.
+  - rewrite (proj2 (Z.compare_lt_iff _ _)) by lia. reflexivity.
+  - rewrite (proj2 (Z.compare_lt_iff _ _)) by lia. reflexivity.
+  - rewrite (proj2 (Z.compare_lt_iff _ _)) by lia. reflexivity.
+Qed.
+
+Fixpoint sortedk (l : list (list Z)) : Prop :=
+  match l with [] => True | a :: r => (forall b, In b r -> path_leb a b = true) /\ sortedk r end.
+
+Lemma insert_keys {A} (e : list Z * A) l x : In x (map fst (insert e l)) <-> x = fst e \/ In x (map fst l).
+Proof.
+  assert (P := insert_perm e l). split; intros H.
+  - apply (Permutation_in _ (Permutation_map fst P)) in H. simpl in H. destruct H; auto.
+  - apply (Permutation_in _ (Permutation_sym (Permutation_map fst P))). simpl. destruct H; auto.
+Qed.
+
+Lemma insert_sorted {A} (e : list Z * A) l : sortedk (map fst l) -> sortedk (map fst (insert e l)).
+Proof.
+  induction l as [|h t IH]; simpl; intros Hs; [split; [intros ? []|exact I]|].
+  destruct Hs as [Hh Ht]. destruct (path_leb (fst e) (fst h)) eqn:E; simpl.
+  - split; [|split; assumption]. intros b [<-|Hb]; [exact E|]. eapply path_leb_trans; [exact E|]. apply Hh. exact Hb.
+  - split; [|apply IH; exact Ht]. intros b Hb. apply insert_keys in Hb. destruct Hb as [->|Hb].
+    + apply path_leb_total. exact E.
+    + apply Hh. exact Hb.
+Qed.
+
+Lemma sort_sorted {A} (l : list (list Z * A)) : sortedk (map fst (sort l)).
+Proof. induction l; simpl; [exact I|]. apply insert_sorted. exact IHl. Qed.
+
+Lemma sorted_unique l : forall l', sortedk l -> sortedk l' -> NoDup l -> NoDup l' ->
+  (forall x, In x l <-> In x l') -> l = l'.
+Proof.
+  induction l as [|a r IH]; intros [|a' r'] S S' N N' H.
+  - reflexivity.
+  - exfalso. apply (proj2 (H a')). left; reflexivity.
+  - exfalso. apply (proj1 (H a)). left; reflexivity.
+  - destruct S as [Sa Sr], S' as [Sa' Sr']. inversion N; subst. inversion N'; subst.
+    assert (E : a = a').
+    { destruct (proj1 (H a) (or_introl eq_refl)) as [E|Hin]; [auto|].
+      destruct (proj2 (H a') (or_introl eq_refl)) as [E|Hin']; [auto|].
+      apply path_leb_antisym; [apply Sa; exact Hin'|apply Sa'; exact Hin]. }
+    subst a'. f_equal. apply IH; auto. intros x. split; intros Hx.
+    + destruct (proj1 (H x) (or_intror Hx)) as [E|]; [subst; contradiction|assumption].
+    + destruct (proj2 (H x) (or_intror Hx)) as [E|]; [subst; contradiction|assumption].
+Qed.
+
+(* the sorted member paths of two signatures coincide iff they have the same member paths *)
+Theorem sorted_paths_eq_iff x x' :
+  names_ok (top x) = true -> names_ok (top x') = true ->
+  (map fst (sort (flat_members x)) = map fst (sort (flat_members x')) <->
+   forall p, In p (map fst (flat_members x)) <-> In p (map fst (flat_members x'))).
+Proof.
+  intros Hn Hn'.
+  assert (K : forall y p, In p (map fst (sort (flat_members y))) <-> In p (map fst (flat_members y))).
+  { intros y p. split; apply Permutation_in; apply Permutation_map; [|symmetry]; apply sort_perm. }
+  split.
+  - intros E p. rewrite <- !K, E. tauto.
+  - intros H. apply sorted_unique; try apply sort_sorted; try (apply sorted_nodup; assumption).
+    intros p. rewrite !K. apply H.
+Qed.
+
+(* ================================================================== the leaves of the specification are the port members x indices *)
+Definition entry_leaves (e : entry) : list sleaf :=
+  match snd e with
+  | Port f sh i d => map (fun idx => SLeaf (PNs (fst e) ++ idx) f sh i) (idx_paths d)
+  | Iface _ _ _ _ => []
+  end.
+
+Lemma leaves_entries m : forall k pre n, nodims_m m = true -> (m_is_port m || is_nil (m_dims m)) = true ->
+  spec_leaves_m k m (PNs (pre ++ [n])) = flat_map entry_leaves (flat_m (Nat.odd k) pre n m).
+Proof.
+  induction m as [f sh i d | f w ms d IH] using member_ind2; intros k pre n Hnd Hd.
+  - cbn [flat_m flat_map spec_leaves_m]. rewrite app_nil_r. unfold entry_leaves. cbn [fst snd].
+    rewrite iter_flip_odd. destruct (Nat.odd k); reflexivity.
+  - cbn [m_is_port m_dims orb] in Hd. destruct d; [|discriminate].
+    cbn [flat_m flat_map spec_leaves_m idx_paths]. rewrite app_nil_r.
+    replace (entry_leaves (pre ++ [n], flipm (Nat.odd k) (Iface f w ms []))) with (@nil sleaf) by (destruct (Nat.odd k); reflexivity).
+    cbn [app]. rewrite flat_map_flat_map. cbn [nodims_m] in Hnd. rewrite forallb_forall in Hnd. rewrite Forall_forall in IH.
+    rewrite sub_flag_odd.
+    apply flat_map_ext_Forall with (P := fun nm => In nm ms); [apply Forall_forall; auto|].
+    intros nm Hnm. specialize (Hnd _ Hnm). apply andb_prop in Hnd. destruct Hnd as [H1 H2].
+    rewrite <- (IH _ Hnm _ (pre ++ [n]) (fst nm) H2 H1). f_equal. unfold PNs. rewrite !map_app. reflexivity.
+Qed.
+
+Theorem spec_leaves_are_port_entries x :
+  nodims_sig x = true -> spec_leaves x = flat_map entry_leaves (flat_members x).
+Proof.
+  destruct x as [w ms]. unfold nodims_sig, spec_leaves, flat_members, flat_ms. cbn [top nodims_m fst snd]. intros Hnd.
+  rewrite forallb_forall in Hnd. rewrite flat_map_flat_map.
+  apply flat_map_ext_Forall with (P := fun nm => In nm ms); [apply Forall_forall; auto|].
+  intros nm Hnm. specialize (Hnd _ Hnm). apply andb_prop in Hnd. destruct Hnd as [H1 H2].
+  replace w with (Nat.odd (b2n w)) at 2 by (destruct w; reflexivity).
+  rewrite <- (leaves_entries (snd nm) (b2n w) [] (fst nm) H2 H1). reflexivity.
+Qed.
